@@ -98,6 +98,19 @@ def _enclosing_in_guard(m, node):
                     t.comparators[0], ast.Constant) and isinstance(
                     t.comparators[0].value, str):
                 return set(t.comparators[0].value)
+    # guard clause: `if <x> not in '<chars>': return` before the statement, at
+    # the top level of the method
+    body = getattr(m.node, 'body', [])
+    for i, st in enumerate(body):
+        if any(node is x for x in ast.walk(st)):
+            break
+        if isinstance(st, ast.If) and not st.orelse and st.body and isinstance(
+                st.body[-1], ast.Return) and isinstance(
+                st.test, ast.Compare) and len(st.test.ops) == 1 and isinstance(
+                st.test.ops[0], ast.NotIn) and isinstance(
+                st.test.comparators[0], ast.Constant) and isinstance(
+                st.test.comparators[0].value, str):
+            return set(st.test.comparators[0].value)
     return None
 
 
